@@ -6,7 +6,7 @@ ID = 'C14'
 HARNESSES = ['h_c01.cpp']
 LEVEL = 'model_checking'
 BUDGET = {'quick': 280, 'thorough': 2400}
-BOUNDS = {'quick': 'objects built through the API (C01 quick configurations) and objects loaded from every C02 layout variant; each saved twice plus an independently built/loaded equal object saved once; full dump before/between/after; every byte handed to the file model must be defined (never-written memory is tracked per byte by the executor) and the three files must be cell-wise equal (z3)',
+BOUNDS = {'quick': 'the second save goes to a path that already holds the (longer) file of a bigger object; objects built through the API (C01 quick configurations) and objects loaded from every C02 layout variant; each saved twice plus an independently built/loaded equal object saved once; full dump before/between/after; every byte handed to the file model must be defined (never-written memory is tracked per byte by the executor) and the three files must be cell-wise equal (z3)',
           'thorough': 'C01/C02 thorough configurations'}
 OUTSIDE = 'objects outside the C01/C02 bounds; "different processes" is modelled as an independently constructed equal object in the same symbolic run (the second object lives at other addresses, so an address or other per-object value leaking into the file shows as a difference between a.c3d and c.c3d)'
 ASSUMPTIONS = ['definedness is a data-flow fact of the executor: a byte is undefined if it was never stored to since allocation, or derives from such a byte']
